@@ -52,6 +52,10 @@ def shards(tier, prop):
             for a in ('queue', 'batch1'):
                 for hz in ([40], [1, 4, 40], [2, 3, 5, 40]):
                     out.append(G('two', R_TWO, props, alg=a, horizon=hz))
+        if prop == 'C12':
+            # observations whose duration is not a whole number of timesteps (1.5, 2.5: a non-second unit): what was streamed in
+            # differs from rate x duration; the buffer columns are compared with the data resident, not with the buffer's counter
+            out += [G('two', R_TWO, props, alg=a, horizon=[2, 5, 40], dur_frac=0.5) for a in ('queue', 'batch1')]
         if prop == 'C12':     # a legal but degenerate setting (no global minimum): only the table column is asserted there
             out.append(G('two', [(0, 2), (2, 3), (3, 4), (0, 2), (0, 2), (1, 1), (2, 2), (5, 5)], props, alg='batch0split', machines=[10, 20]))
         if prop == 'C02':
@@ -118,6 +122,8 @@ def shards(tier, prop):
         out.append(G('delay', [(0, 2), (1, 2), (1, 2), (0, 2), (0, 2), (0, 2), (0, 2), (0, 1)], props, alg='queue'))
         for honest in (True, False):
             out.append(G('adv', [(0, 1), (1, 1), (0, 2), (-1, 2), (-1, 2), (-1, 2), (0, 2), (0, 0)], props, honest=honest))
+        # a user algorithm that proposes the same free machine for every ready task (the Scheduler defers all but one)
+        out += [G('three', R_THREE, props, alg='dupfirst', shape=sh) for sh in ('free', 'fork')]
     if prop == 'C07':
         out = [G('two', R_TWO, props, alg=a) for a in ALG3]
         # workflows that complete out of the order in which they were handed to the scheduler
